@@ -68,6 +68,49 @@ def solve_cli(year, forms, input_file, script=None, prompt_missing=False, writeb
     return dict(stdout=out.getvalue(), exc=exc, prompts=log)
 
 
+def main_cli(argv, script=None):
+    """the console entry point habutax.main() with sys.argv = ['habutax'] + argv; returns dict(stdout, stderr, exc)"""
+    import sys
+    out, err = io.StringIO(), io.StringIO()
+    log = []
+    exc = None
+    old = sys.argv
+    sys.argv = ['habutax'] + list(argv)
+    try:
+        with scripted_input(script or [], log), contextlib.redirect_stdout(out), contextlib.redirect_stderr(err):
+            try:
+                habutax.main()
+            except KeyboardInterrupt:
+                exc = ('KeyboardInterrupt', '')
+            except SystemExit as e:
+                exc = ('SystemExit', str(e.code))
+            except BaseException as e:
+                exc = (type(e).__name__, str(e)[:300])
+    finally:
+        sys.argv = old
+    return dict(stdout=out.getvalue(), stderr=err.getvalue(), exc=exc, prompts=log)
+
+
+def argv_arrangements(year, forms, infile, solfile, default_year):
+    """every placement x spelling of the --year option on a `habutax solve` command line (and its omission when the
+    year is the default): [(label, argv)]"""
+    out = []
+    rest = []
+    for f in forms:
+        rest += ['--form', f]
+    rest += ['--solution', solfile]
+    for style in ('sep', 'eq'):
+        y = ['--year', str(year)] if style == 'sep' else [f'--year={year}']
+        out.append((f'top/{style}', y + ['solve', infile] + rest))
+        out.append((f'first/{style}', ['solve'] + y + [infile] + rest))
+        out.append((f'mid/{style}', ['solve', infile] + y + rest))
+        out.append((f'last/{style}', ['solve', infile] + rest + y))
+        out.append((f'between-forms/{style}', ['solve'] + rest[:2] + y + rest[2:] + [infile]))
+    if year == default_year:
+        out.append(('omitted', ['solve', infile] + rest))
+    return out
+
+
 def fill_cli(solution_file, output, flatten=True):
     """runs habutax.fill_pdfs with the stand-in pdftk; returns dict(exc, cmds [argv lists], fdfs {n: bytes})"""
     logdir = tempfile.mkdtemp(prefix='hvpdftk_')
